@@ -1,11 +1,150 @@
 import TdVerif.Sexp
+import TdVerif.Model.C12Chunk
+import TdVerif.Model.C12Pool
 
 namespace TdVerif.Drive
-open TdVerif Sexp
+open TdVerif Sexp TdVerif.C12
+
+namespace C12D
+
+def asOptNat? : Sexp → Option (Option Nat)
+  | .atom "none" => some none
+  | .atom s => s.toNat?.map some
+  | _ => none
+
+def asBool? : Sexp → Option Bool
+  | .atom "true" => some true
+  | .atom "false" => some false
+  | _ => none
+
+def asOptBool? : Sexp → Option (Option Bool)
+  | .atom "none" => some none
+  | .atom "true" => some (some true)
+  | .atom "false" => some (some false)
+  | _ => none
+
+def splitErrAtom : SplitErr → String
+  | .both => "both"
+  | .chunks => "chunks"
+  | .zerodiv => "zerodiv"
+
+def pieceToSexp (n : Nat) : Piece → Sexp
+  | .rng s e => .list [.atom "r", ofNat s, ofNat e, ofNats (Piece.rows n (.rng s e))]
+  | .idx i => .list [.atom "i", ofNat i, ofNats (Piece.rows n (.idx i))]
+
+def eagerToSexp : EagerCall → Sexp
+  | .chunk k => tagged "chunk" [ofNat k]
+  | .split ss => tagged "split" [ofNat ss]
+  | .unbind => tagged "unbind" []
+
+/-- a result row: `none` = row of the out buffer never written, `some (src, lo, len)` = row `src`
+    of the input, produced by the call on the chunk starting at `lo` of length `len` (0 = unbound) -/
+abbrev Row := Option (Nat × Nat × Nat)
+
+def rowToSexp : Row → Sexp
+  | none => .atom "u"
+  | some (a, b, c) => .list [ofNat a, ofNat b, ofNat c]
+
+/-- the instrumented worker function used by the harness: identity on rows, tags every row with
+    the first row and the length of the chunk it was called on; returns `None` for the chunks whose
+    first row is flagged in `noneAt`. -/
+def tagFn (noneAt : List Nat) (p : Piece) (x : List Nat) : Option (List Row) :=
+  let lo := x.headD 0
+  if noneAt.getD lo 0 = 1 then none
+  else
+    let len := match p with
+      | .rng _ _ => x.length
+      | .idx _ => 0
+    some (x.map fun r => some (r, lo, len))
+
+def outKind? : Sexp → Option OutKind
+  | .atom "absent" => some .absent
+  | .atom "regular" => some .regular
+  | .atom "shared" => some .shared
+  | _ => none
+
+def mapErrAtom : MapErr → String
+  | .split e => splitErrAtom e
+  | .update => "update"
+  | .zip => "zip"
+
+partial def treeOfSexp : Sexp → Option (Tree Nat)
+  | .list [.atom "l", v] => (asNat? v).map .leaf
+  | .list (.atom "n" :: kids) =>
+    (kids.mapM fun (k : Sexp) => match k with
+      | Sexp.list [Sexp.atom key, t] => (treeOfSexp t).map fun t' => (key, t')
+      | _ => none).map Tree.node
+  | _ => none
+
+partial def treeToSexp : Tree Nat → Sexp
+  | .leaf v => .list [.atom "l", ofNat v]
+  | .node kids => .list (.atom "n" :: kids.map fun (k, t) => .list [.atom k, treeToSexp t])
+
+def kidsOf : Tree Nat → List (String × Tree Nat)
+  | .node kids => kids
+  | .leaf _ => []
+
+end C12D
+open C12D
 
 /-- line-protocol handler for C12: commands are named `c12.<something>` -/
 def handleC12 (cmd : String) (args : List Sexp) : Option Sexp :=
   match cmd, args with
+  -- (c12.split n cs nc workers gen) -> (ok piece…) | (err kind)
+  | "c12.split", [n, cs, nc, w, gen] => do
+      let n ← asNat? n; let cs ← asOptNat? cs; let nc ← asOptNat? nc; let w ← asNat? w; let gen ← asBool? gen
+      match splitTensordict n cs nc w gen with
+      | .ok ps => pure (tagged "ok" (ps.map (pieceToSexp n)))
+      | .error e => pure (tagged "err" [.atom (splitErrAtom e)])
+  -- (c12.eager n cs nc workers) -> (ok (chunk k)|(split s)|(unbind)) | (err kind)
+  | "c12.eager", [n, cs, nc, w] => do
+      let n ← asNat? n; let cs ← asOptNat? cs; let nc ← asOptNat? nc; let w ← asNat? w
+      match eagerCall n cs nc w with
+      | .ok c => pure (tagged "ok" [eagerToSexp c])
+      | .error e => pure (tagged "err" [.atom (splitErrAtom e)])
+  -- (c12.tdsplit n ss) / (c12.tdchunk n k): TensorDict.split / chunk on a dim of size n
+  | "c12.tdsplit", [n, ss] => do
+      let n ← asNat? n; let ss ← asNat? ss
+      pure (tagged "ok" ((splitSlices n ss).map fun p => pieceToSexp n (.rng p.1 p.2)))
+  | "c12.tdchunk", [n, k] => do
+      let n ← asNat? n; let k ← asNat? k
+      match chunkSlices n k with
+      | some l => pure (tagged "ok" (l.map fun p => pieceToSexp n (.rng p.1 p.2)))
+      | none => pure (tagged "err" [.atom "chunks"])
+  -- (c12.map n cs nc workers gen outkind outlen (noneAt…)) -> (ok ret (out…)) | (err kind)
+  | "c12.map", [n, cs, nc, w, gen, kind, outlen, .list noneAt] => do
+      let n ← asNat? n; let cs ← asOptNat? cs; let nc ← asOptNat? nc; let w ← asNat? w; let gen ← asBool? gen
+      let kind ← outKind? kind; let outlen ← asNat? outlen; let noneAt ← nats? noneAt
+      let out : List Row := List.replicate outlen none
+      match mapModel (List.range n) cs nc w gen (tagFn noneAt) kind out with
+      | .ok (ret, out') =>
+        let r := match ret with
+          | none => Sexp.atom "none"
+          | some rows => .list (rows.map rowToSexp)
+        pure (tagged "ok" [r, .list (out'.map rowToSexp)])
+      | .error e => pure (tagged "err" [.atom (mapErrAtom e)])
+  -- (c12.mappinned n cs (noneAt…)): the reassembly loop of the pinned tree (regression anchor)
+  | "c12.mappinned", [n, cs, .list noneAt] => do
+      let n ← asNat? n; let cs ← asNat? cs; let noneAt ← nats? noneAt
+      match splitTensordict n (some cs) none 1 false with
+      | .ok ps =>
+        match mapRegularPinned (List.range n) ps (tagFn noneAt) (List.replicate n (none : Row)) with
+        | some out' => pure (tagged "ok" [.list (out'.map rowToSexp)])
+        | none => pure (tagged "err" [.atom "update"])
+      | .error e => pure (tagged "err" [.atom (splitErrAtom e)])
+  -- (c12.pool fe tree (order…) (noneVals…)) -> (ok (submitted…) rebuilt sequential) | (err)
+  | "c12.pool", [fe, tree, .list order, .list noneVals] => do
+      let fe ← asOptBool? fe; let tree ← treeOfSexp tree; let order ← nats? order; let noneVals ← nats? noneVals
+      let kids := kidsOf tree
+      let fn : Nat → Option Nat := fun v => if noneVals.contains v then none else some v
+      let sub := (submitKids kids 0).2
+      let tr : Option (Tree Nat) → Sexp := fun t => match t with
+        | none => .atom "none"
+        | some t => treeToSexp t
+      let seq := applyTree fe fn (.node kids)
+      match multithreadApply fe fn kids order with
+      | some r => pure (tagged "ok" [ofNats sub, tr r, tr seq])
+      | none => pure (tagged "err" [ofNats sub])
   | _, _ => none
 
 end TdVerif.Drive
